@@ -1011,6 +1011,10 @@ int pthread_create(pthread_t* th, const pthread_attr_t* attr, void* (*fn)(void*)
         _exit(13);
     }
     *th = t->real;
+    {
+        Ign ig;
+        post_op(me);   // the new thread may run (even to completion) before its creator executes another instruction
+    }
     return 0;
 }
 int pthread_join(pthread_t th, void** ret) {
